@@ -149,6 +149,35 @@ def sel(v: Any) -> int:
 # --------------------------------------------------------------------------
 
 
+SENTINEL = None  # hypergraph's emit sentinel object (set by install_taps)
+
+
+class _Emit:
+    """Harness-side stand-in for the ordering sentinel inside recorded arguments and terms."""
+
+    def __repr__(self):
+        return "<EMIT>"
+
+    def __reduce__(self):
+        return (_get_emit, ())
+
+
+def _get_emit():
+    return EMIT
+
+
+EMIT = _Emit()
+
+
+def _norm(kw: dict) -> dict:
+    s = SENTINEL
+    if s is not None:
+        for v in kw.values():
+            if v is s:
+                return {k: (EMIT if x is s else x) for k, x in kw.items()}
+    return kw
+
+
 def _body(fid: str, kw: dict):
     h = HOOK.get(fid)
     if h is not None:
@@ -161,6 +190,7 @@ def _body(fid: str, kw: dict):
 
 def call(fid: str, kw: dict):
     rec = CUR
+    kw = _norm(kw)
     rec.enter(fid, kw)
     try:
         res = _body(fid, kw)
@@ -173,6 +203,7 @@ def call(fid: str, kw: dict):
 
 async def acall(fid: str, kw: dict):
     rec = CUR
+    kw = _norm(kw)
     rec.enter(fid, kw)
     try:
         s = SCHED
@@ -188,6 +219,7 @@ async def acall(fid: str, kw: dict):
 
 def gcall(fid: str, kw: dict):
     rec = CUR
+    kw = _norm(kw)
     rec.enter(fid, kw)
     try:
         res = _body(fid, kw)
@@ -201,6 +233,7 @@ def gcall(fid: str, kw: dict):
 
 async def agcall(fid: str, kw: dict):
     rec = CUR
+    kw = _norm(kw)
     rec.enter(fid, kw)
     try:
         s = SCHED
@@ -424,6 +457,10 @@ def install_taps() -> None:
         return
     import hypergraph.runners.async_.runner as ar
     import hypergraph.runners.sync.runner as sr
+    from hypergraph.nodes.base import _EMIT_SENTINEL
+
+    global SENTINEL
+    SENTINEL = _EMIT_SENTINEL
 
     def wrap_ready(orig):
         def get_ready_nodes(graph, state, *, active_nodes=None):
@@ -446,6 +483,23 @@ def install_taps() -> None:
         if not hasattr(mod, "get_ready_nodes"):
             raise Inconclusive(f"tap target get_ready_nodes missing in {mod.__name__}")
         mod.get_ready_nodes = wrap_ready(mod.get_ready_nodes)
+
+    orig_ss = sr.run_superstep_sync
+
+    def run_superstep_sync(graph, state, ready_nodes, *a, **kw):
+        TAP_COUNT["step"] = TAP_COUNT.get("step", 0) + 1
+        CUR.add("step", RUN.get(), graph.name, tuple(n.name for n in ready_nodes))
+        return orig_ss(graph, state, ready_nodes, *a, **kw)
+
+    sr.run_superstep_sync = run_superstep_sync
+    orig_sa = ar.run_superstep_async
+
+    async def run_superstep_async(graph, state, ready_nodes, *a, **kw):
+        TAP_COUNT["step"] = TAP_COUNT.get("step", 0) + 1
+        CUR.add("step", RUN.get(), graph.name, tuple(n.name for n in ready_nodes))
+        return await orig_sa(graph, state, ready_nodes, *a, **kw)
+
+    ar.run_superstep_async = run_superstep_async
 
     orig_sync = sr.SyncRunner._execute_graph_impl
 
